@@ -298,6 +298,19 @@ impl BuildJob<'_> {
         let mut dof = state::File::from_name(&mut ptx, &df.do_dir.join(&df.do_file), true)?;
         dof.set_static(ptx.state().env())?;
         dof.save(&mut ptx)?;
+        // From here on the file belongs to this build.  Forget its stamp, so
+        // that other processes checking it meanwhile see a target that needs
+        // building, and so that if we die between renaming the new output
+        // into place and recording it, the next run sees a target to rebuild
+        // rather than a source file or a hand-edited target.
+        // (Only the stored record: if the build fails, the stamp we know is
+        // still the right one to compare the untouched file with.)
+        {
+            let mut building = sf.clone();
+            building.is_generated = true;
+            building.stamp = None;
+            building.save(&mut ptx)?;
+        }
         let ps = ptx.commit().map_err(RedoError::opaque_error)?;
         logs::meta("do", state::target_relpath(ps.env(), &t)?.as_str(), None);
 
